@@ -173,12 +173,29 @@ Theorem C10_assign_op_preserves : forall en l o e h,
 Proof. exact assign_op_preserves. Qed.
 Print Assumptions C10_assign_op_preserves.
 
-Theorem C10_assign_incdec_preserves : forall en l (inc : bool) h,
-  env_ok en -> lval_pure l = true ->
-  (match l with LVar _ t => t = TInt | LIdx _ _ => True end) ->
-  exec en (assign_op_lhs l (if inc then OAdd else OSub) (ELit LInt "1" TInt)) h = exec en (SIncDec l inc) h.
+Theorem C10_assign_incdec_preserves : forall en l (inc : bool) s h,
+  env_ok en -> lval_pure l = true -> go_int_lit s = Some 1%Z -> (lval_ty l = TInt \/ lval_ty l = TFloat) ->
+  exec en (assign_op_lhs l (if inc then OAdd else OSub) (ELit LInt s (lval_ty l))) h = exec en (SIncDec l inc) h.
 Proof. exact assign_incdec_preserves. Qed.
 Print Assumptions C10_assign_incdec_preserves.
+
+(* The rule group as the checker decides it ([assign_op_rewrite]: eleven operators, the ++/-- forms, literal 1
+   matched by value, $x twice, filter m["x"].Pure; tied to the real checker on generated statements): every
+   reported well-typed statement behaves like the replacement shown in the message.  Left operands: variables
+   (plain, defined type), elements of slices / defined slices / arrays, fields through a pointer (nil => panic). *)
+Theorem C10_assign_op_rule_preserves : forall en l e s' h,
+  env_ok en -> typeof e <> None -> assign_op_rewrite (SAssign l e) = Some s' ->
+  exec en (SAssign l e) h = exec en s' h.
+Proof. exact assign_op_rule_preserves. Qed.
+Print Assumptions C10_assign_op_rule_preserves.
+
+Example C10_assign_op_rule_fires :
+  assign_op_msgs (SAssign (LSel "w" "avail" KPlain TInt) (EBinary OAndNot (ESel "w" "avail" KPlain TInt) (EIdent "b" TInt)))
+    = ["replace `w.avail = w.avail &^ b` with `w.avail &^= b`"] /\
+  assign_op_msgs (SAssign (LVarK "mf" (KDef "myF") TFloat) (EBinary OAdd (EVarK "mf" (KDef "myF") TFloat) (ELit LInt "0x1" TFloat)))
+    = ["replace `mf = mf + 0x1` with `mf++`"] /\
+  assign_op_msgs (SAssign (LIdx "xs" (ECall (FOpaque "fi" TInt) [])) (EBinary OAdd (EIndex (EIdent "xs" TInts) (ECall (FOpaque "fi" TInt) [])) (EIdent "b" TInt))) = [].
+Proof. vm_compute. repeat split. Qed.
 
 (* switchTrue: a tag that always evaluates to true without events can be dropped *)
 Theorem C10_switch_true_preserves : forall en t cases dflt h,
@@ -200,6 +217,26 @@ Theorem C10_val_swap_index_dependence_refuted :
     observe (exec en (val_swap_lhs "tmp" TInt x y) []) <> observe (exec en (val_swap_rhs x y) []).
 Proof. exact val_swap_index_dependence_refuted. Qed.
 Print Assumptions C10_val_swap_index_dependence_refuted.
+
+(* the rules as decided by the checker (tied on generated statements) *)
+Theorem C10_switch_true_rule_preserves : forall en n cases dflt s' h,
+  switch_true_rewrite (SSwitch (Some (EConst n (VBool true))) cases dflt) = Some s' ->
+  exec en (SSwitch (Some (EConst n (VBool true))) cases dflt) h = exec en s' h.
+Proof. exact switch_true_rule_preserves. Qed.
+Print Assumptions C10_switch_true_rule_preserves.
+
+(* the rule matches the spelling `true`: with a variable of that name the rewrite changes the arm taken *)
+Theorem C10_switch_true_shadowed_refuted :
+  exists en s s', env_ok en /\ switch_true_rewrite s = Some s' /\
+    observe (exec en s []) <> observe (exec en s' []).
+Proof. exact switch_true_shadowed_refuted. Qed.
+Print Assumptions C10_switch_true_shadowed_refuted.
+
+Theorem C10_val_swap_rule_refuted :
+  exists en s1 s2 s3 s', env_ok en /\ val_swap_rewrite s1 s2 s3 = Some s' /\
+    observe (exec en (SSeq s1 (SSeq s2 s3)) []) <> observe (exec en s' []).
+Proof. exact val_swap_rule_refuted. Qed.
+Print Assumptions C10_val_swap_rule_refuted.
 
 (* newDeref *)
 Theorem C10_new_deref_zero_literal : forall en t e h,
@@ -257,3 +294,94 @@ Theorem C10_defer_unlambda_func_var_refuted :
   exists c st1 st2, defer_unlambda_flags c = true /\ callee_eval st1 c <> callee_eval st2 c.
 Proof. exact defer_unlambda_func_var_refuted. Qed.
 Print Assumptions C10_defer_unlambda_func_var_refuted.
+
+(* ---------------- round 5: more rule triples ---------------- *)
+(* wrapperFunc, bytes family (was oracle-only): bytes.Index(b1, b2) >= 0 | != -1 => bytes.Contains(b1, b2) *)
+Theorem C10_wrapper_func_bytes_index_preserves : forall en b1 b2,
+  preserves en (rw_bytes_index_ge b1 b2) /\ preserves en (rw_bytes_index_ne b1 b2).
+Proof. intros en b1 b2. exact (conj (bytes_index_ge_preserves en b1 b2) (bytes_index_ne_preserves en b1 b2)). Qed.
+Print Assumptions C10_wrapper_func_bytes_index_preserves.
+
+(* strings.IndexAny(s, chars) >= 0 | != -1 => strings.ContainsAny(s, chars), on ASCII operands (outside: None on both sides) *)
+Theorem C10_wrapper_func_index_any_preserves : forall en s1 s2,
+  preserves en (rw_index_any_ge s1 s2) /\ preserves en (rw_index_any_ne s1 s2).
+Proof. intros en s1 s2. exact (conj (index_any_ge_preserves en s1 s2) (index_any_ne_preserves en s1 s2)). Qed.
+Print Assumptions C10_wrapper_func_index_any_preserves.
+
+(* strings.Replace(s, old, new, -1) => strings.ReplaceAll(s, old, new), bytes.Replace likewise *)
+Theorem C10_wrapper_func_replace_all_preserves : forall en s o n,
+  preserves en (rw_replace_all s o n) /\ preserves en (rw_bytes_replace_all s o n).
+Proof. intros en s o n. exact (conj (replace_all_preserves en s o n) (bytes_replace_all_preserves en s o n)). Qed.
+Print Assumptions C10_wrapper_func_replace_all_preserves.
+
+(* stringXbytes: string(x) == string(y) => bytes.Equal(x, y); != => !bytes.Equal(x, y) *)
+Theorem C10_string_x_bytes_equal_preserves : forall en, env_ok en -> forall x y,
+  typeof x = Some TBytes -> typeof y = Some TBytes ->
+  preserves en (rw_xbytes_equal x y) /\ preserves en (rw_xbytes_nequal x y).
+Proof. intros en Hen x y Tx Ty. exact (conj (xbytes_equal_preserves en Hen x y Tx Ty) (xbytes_nequal_preserves en Hen x y Tx Ty)). Qed.
+Print Assumptions C10_string_x_bytes_equal_preserves.
+
+(* stringConcatSimplify with the empty glue: strings.Join([]string{x, y}, "") => x + y, three elements likewise *)
+Theorem C10_string_concat_empty_glue_preserves : forall en, env_ok en -> forall x y z,
+  typeof x = Some TString -> typeof y = Some TString -> typeof z = Some TString ->
+  preserves en (rw_join2_empty x y) /\ preserves en (rw_join3_empty x y z).
+Proof. intros en Hen x y z Tx Ty Tz. exact (conj (join2_empty_preserves en Hen x y Tx Ty) (join3_empty_preserves en Hen x y z Tx Ty Tz)). Qed.
+Print Assumptions C10_string_concat_empty_glue_preserves.
+
+(* equalFold (not among the checkers C10 enumerates; modelled as an observation): with both sides lower-cased the
+   suggestion agrees with the original wherever the original is inside the ASCII fragment ...
+   full statement:  forall h, evalS en rhs h = evalS en lhs h  — not provable here: strings.ToLower on non-ASCII
+   operands is outside the model *)
+Theorem C10_equal_fold_both_lower_preserves_partial : forall en x y h o,
+  evalS en (rw_lhs (rw_equal_fold_both x y)) h = Some o -> evalS en (rw_rhs (rw_equal_fold_both x y)) h = Some o.
+Proof. exact equal_fold_both_lower_preserves_partial. Qed.
+Print Assumptions C10_equal_fold_both_lower_preserves_partial.
+
+(* ... and the one-sided patterns (`strings.ToLower($x) == $y`) change the result *)
+Theorem C10_equal_fold_one_sided_refuted :
+  exists en x y, env_ok en /\ equal_fold_filter x y = true /\
+    eval en (rw_lhs (rw_equal_fold_left x y)) = Some (RVal (VBool false), []) /\
+    eval en (rw_rhs (rw_equal_fold_left x y)) = Some (RVal (VBool true), []).
+Proof. exact equal_fold_one_sided_refuted. Qed.
+Print Assumptions C10_equal_fold_one_sided_refuted.
+
+Example C10_equal_fold_guard_satisfiable :
+  evalS (env_of [("x", VStr "Go"); ("y", VStr "gO")] []) (rw_lhs (rw_equal_fold_both (EIdent "x" TString) (EIdent "y" TString))) []
+    = Some (RVal (VBool true), []).
+Proof. vm_compute. reflexivity. Qed.
+
+(* ---------------- round 6: pointers to arrays and maps are values of the model ---------------- *)
+(* unslice's filter (string or slice type) is necessary: on a pointer to an array `p[:]` => `p` changes the value
+   (slice vs pointer), and for a nil pointer a panic becomes a value.  C10_unslice_preserves above is the positive side. *)
+Theorem C10_unslice_pointer_to_array_refuted :
+  exists en s, env_ok en /\ typeof s = Some TPArr /\ typeof (rw_lhs (rw_unslice s)) = Some TInts /\
+    eval en (rw_lhs (rw_unslice s)) = Some (RVal (VInts [1; 2; 3]%Z), []) /\
+    eval en (rw_rhs (rw_unslice s)) = Some (RVal (VPArr 3 (Some [1; 2; 3]%Z)), []).
+Proof. exact unslice_pointer_to_array_refuted. Qed.
+Print Assumptions C10_unslice_pointer_to_array_refuted.
+
+Theorem C10_unslice_nil_pointer_to_array_refuted :
+  exists en s, env_ok en /\ typeof s = Some TPArr /\
+    eval en (rw_lhs (rw_unslice s)) = Some (RPanic, []) /\ eval en (rw_rhs (rw_unslice s)) = Some (RVal (VPArr 3 None), []).
+Proof. exact unslice_nil_pointer_to_array_refuted. Qed.
+Print Assumptions C10_unslice_nil_pointer_to_array_refuted.
+
+(* valSwap, positive side.  Full statement (false, see C10_val_swap_rule_refuted / _index_dependence_refuted):
+     forall x y, val_swap_rewrite .. = Some s' -> exec (tmp := y; y = x; x = tmp) = exec (y, x = x, y).
+   Guard: x and y are two distinct plain variables of one type and the temporary is neither.  Then both forms succeed
+   without events and agree on every variable except the temporary, with x and y exchanged. *)
+Theorem C10_val_swap_vars_preserves_partial : forall en x y t tmp h,
+  env_ok en -> x <> y -> tmp <> x -> tmp <> y ->
+  exists en1 en2,
+    exec en (val_swap_lhs tmp t (LVar x t) (LVar y t)) h = Some (RVal en1, h) /\
+    exec en (val_swap_rhs (LVar x t) (LVar y t)) h = Some (RVal en2, h) /\
+    (forall z u, (z <> tmp \/ u <> t) -> vars en1 z u = vars en2 z u) /\
+    vars en2 x t = vars en y t /\ vars en2 y t = vars en x t.
+Proof. exact val_swap_vars_preserves_partial. Qed.
+Print Assumptions C10_val_swap_vars_preserves_partial.
+
+Example C10_val_swap_guard_satisfiable :
+  "a" <> "b" /\ "tmp" <> "a" /\ "tmp" <> "b" /\
+  val_swap_rewrite (SDefine "tmp" TInt (EIdent "b" TInt)) (SAssign (LVar "b" TInt) (EIdent "a" TInt)) (SAssign (LVar "a" TInt) (EIdent "tmp" TInt))
+    = Some (SAssign2 (LVar "b" TInt) (LVar "a" TInt) (EIdent "a" TInt) (EIdent "b" TInt)).
+Proof. repeat split; try discriminate. Qed.
